@@ -202,7 +202,7 @@ def run_apalache(apa, workdir):
            "--out-dir=" + os.path.join(workdir, "out"), os.path.join(SPEC, apa.module + ".tla")]
     try:
         p = subprocess.run(cmd, cwd=workdir, stdout=subprocess.PIPE, stderr=subprocess.STDOUT, timeout=apa.timeout,
-                           env=dict(os.environ, JVM_ARGS="-Xmx3g -Djava.io.tmpdir=" + workdir))
+                           env=dict(os.environ, JVM_ARGS="-Xmx3g", TMPDIR=workdir))     # the launcher makes its SANY directory with mktemp -t
         res.out = p.stdout.decode("utf-8", "replace")
         res.rc = p.returncode
         if "The outcome is: NoError" in res.out and p.returncode == 0:
